@@ -98,6 +98,7 @@ class SwapSpec(Spec):
 
             return [Res("val", args[0], st)]
 
+        b_xor.ghost_modifies = ["log"]
         return {"riscv.XorOp": Builtin(b_xor), "rewriter.insert": Builtin(b_insert, "rewriter.insert(op) returns op (C11)")}
 
     def latest(self, st, reg):
